@@ -22,7 +22,8 @@ BUILTIN_METHODS = {
     "rpartition", "encode", "decode", "isdigit", "zfill", "title", "capitalize", "discard", "difference",
     "intersection", "info", "debug", "warning", "error", "setLevel", "addHandler", "setFormatter", "read", "write",
     "save", "fromkeys", "find", "lstrip", "rstrip", "splitlines", "cache_clear", "cache_info", "getLogger",
-    "iterdir", "glob", "resolve", "expanduser", "close", "load", "dump", "loads", "dumps",
+    "iterdir", "glob", "resolve", "expanduser", "close", "load", "dump", "loads", "dumps", "absolute", "samefile",
+    "is_symlink", "readlink", "read_bytes", "write_bytes", "stat",
 }
 # of these, the ones that program classes also define: prefer the program method only when the
 # receiver type is known
